@@ -155,6 +155,35 @@ CallSub(st, global) ==
           ELSE IF Len(s1.frames) > NestLimit THEN Fail(s1, "NestingDepthLimitExceeded")
           ELSE [s1 EXCEPT !.frames = Append(@, [code |-> subrs[idx + 1], pc |-> 1])]
 
+\* ---- CFF2 variation operators. The blend state is abstracted to the number of regions of each variation-data subtable
+\* (st.blendK, empty = no blend state) with every region scalar equal to 1 (the harness evaluates at a location where this
+\* holds), so that blending n values is: value_i + sum of its deltas.
+PopI32(st) ==      \* <<state, value>>; the state is failed when there is no operand or it is not an integer
+  IF st.top = 0 THEN <<Fail(st, "StackUnderflow"), 0>>
+  ELSE LET e == Slot(st, st.top - 1)  s1 == [st EXCEPT !.top = @ - 1] IN
+       IF e[2] THEN <<Fail(s1, "ExpectedI32StackEntry"), 0>> ELSE <<s1, e[1]>>
+VsIndex(st) ==
+  IF st.blendK = <<>> THEN Fail(st, "MissingBlendState")
+  ELSE LET p == PopI32(st)  s1 == p[1]  ix == p[2] % 65536 IN                     \* `as u16`
+       IF s1.status # "run" THEN s1
+       ELSE IF ix + 1 > Len(st.blendK) THEN Fail(s1, "Read") ELSE [s1 EXCEPT !.vs = ix]
+RECURSIVE SumDeltas(_, _, _)
+SumDeltas(st, from, k) == IF k = 0 THEN 0 ELSE Get(st, from) + SumDeltas(st, from + 1, k - 1)
+Blend(st) ==
+  IF st.blendK = <<>> THEN Fail(st, "MissingBlendState")
+  ELSE LET p == PopI32(st)  s1 == p[1]  n == p[2]  K == st.blendK[st.vs + 1] IN
+       IF s1.status # "run" THEN s1
+       ELSE IF n < 0 \/ n > s1.top THEN Fail(s1, "StackUnderflow")                 \* a negative count is a huge unsigned one
+       ELSE LET need == n * (K + 1) IN
+            IF s1.top < need THEN Fail(s1, "StackUnderflow")
+            ELSE LET start == s1.top - need
+                     \* every operand of the blend becomes a fixed-point slot; the first n receive their sums
+                     conv == [i \in 1..Len(s1.vals) |->
+                                IF i - 1 >= start /\ i - 1 < start + n THEN <<Get(s1, i - 1) + SumDeltas(s1, start + n + K * (i - 1 - start), K), TRUE>>
+                                ELSE IF i - 1 >= start + n /\ i - 1 < start + need THEN <<Get(s1, i - 1), TRUE>>
+                                ELSE s1.vals[i]]
+                 IN [s1 EXCEPT !.vals = conv, !.top = start + n]
+
 EndChar(st) ==
   LET s1 == IF st.top > 0 /\ ~st.width THEN [st EXCEPT !.width = TRUE, !.top = 0] ELSE st
       s2 == IF s1.open THEN Emit([s1 EXCEPT !.open = FALSE], <<CZ>>) ELSE s1
@@ -195,7 +224,8 @@ Operator(st, op) ==
     [] op = "callgsubr" -> CallSub(st, TRUE)
     [] op = "return"  -> PopFrame(st)
     [] op = "endchar" -> EndChar(st)
-    [] op = "vsindex" \/ op = "blend" -> Fail(st, "MissingBlendState")             \* no blend state is supplied
+    [] op = "vsindex" -> VsIndex(st)
+    [] op = "blend" -> Blend(st)
     [] OTHER -> Fail(st, "InvalidCharstringOperator")
 
 OpName(b) ==
@@ -224,9 +254,11 @@ Step(st) ==
        ELSE IF b0 = 12 THEN (IF Avail(st) < 2 THEN Fail(st, "Read") ELSE Operator(Adv(st, 2), Op2Name(Byte(st, 1))))
        ELSE Operator(Adv(st, 1), OpName(b0))
 
-Start(main, gsubrs, lsubrs, haveLocal) ==
-  [main |-> main, frames |-> <<[code |-> main, pc |-> 1]>>, vals |-> <<>>, top |-> 0, ix |-> 0, x |-> 0, y |-> 0, open |-> FALSE, width |-> FALSE,
+Start5(main, gsubrs, lsubrs, haveLocal, blendK) ==
+  [blendK |-> blendK, vs |-> 0, main |-> main, frames |-> <<[code |-> main, pc |-> 1]>>, vals |-> <<>>, top |-> 0, ix |-> 0, x |-> 0, y |-> 0, open |-> FALSE, width |-> FALSE,
    stems |-> 0, cmds |-> <<>>, status |-> "run", why |-> "", gsubrs |-> gsubrs, lsubrs |-> lsubrs, haveLocal |-> haveLocal]
+
+Start(main, gsubrs, lsubrs, haveLocal) == Start5(main, gsubrs, lsubrs, haveLocal, <<>>)
 
 RECURSIVE Run(_)
 Run(st) == IF st.status # "run" THEN st ELSE Run(Step(st))
